@@ -2,6 +2,8 @@ import FqModel.Container
 import Proofs.C15Crc
 import Proofs.C15Struct
 import Proofs.C15CrcTable
+import Proofs.C15Crc16
+import Proofs.C15Crc8
 /-!
   C15 — container decoders report what independent writers stored: property theorems.
 
@@ -109,6 +111,76 @@ theorem fqcrc32_detects_byte (init : Nat) (hinit : init < 2 ^ 32) (a a' : Bytes)
   injection h with h
   rw [h1, h2] at h
   exact crcMsb_ne_of_byte init hinit p q hne h
+
+/-- the 16 bit table (`ANSI16Table`, polynomial 0x8005: flac frame footer, mp3 frame crc): table driven step =
+    eight bit-by-bit steps, for every 16 bit state and byte -/
+theorem fqcrc16_step_eq_bitwise (cur : Nat) (hc : cur < 2 ^ 16) (b : UInt8) :
+    crcWriteByte 16 Gen.Crc.ANSI16Table cur b = .ok (crcMsbStep 0x8005 16 cur b) := by
+  have hb : b.toNat < 2 ^ 8 := b.toNat_lt
+  have hidx : (cur >>> 8) ^^^ b.toNat < 256 :=
+    Nat.xor_lt_two_pow (n := 8) (by rw [Nat.shiftRight_eq_div_pow]; omega) hb
+  obtain ⟨hsz, htab⟩ := crc16_table_ok
+  have hlt : (cur >>> 8) ^^^ b.toNat < Gen.Crc.ANSI16Table.size := by rw [hsz]; exact hidx
+  have hget : Gen.Crc.ANSI16Table[(cur >>> 8) ^^^ b.toNat]? = some (makeTableEntry 0x8005 16 ((cur >>> 8) ^^^ b.toNat)) := by
+    rw [Array.getElem?_eq_getElem hlt, ← htab _ hidx, getElem!_pos Gen.Crc.ANSI16Table _ hlt]
+  simp only [crcWriteByte, hget]
+  rw [W16.write32_eq_bitwise cur hc b _ rfl]
+
+theorem fqcrc16_eq_bitwise (bs : Bytes) : ∀ (cur : Nat), cur < 2 ^ 16 →
+    crcWrite 16 Gen.Crc.ANSI16Table cur bs = .ok (crcMsb 0x8005 16 cur bs) := by
+  induction bs with
+  | nil => intro cur _; rfl
+  | cons b bs ih =>
+    intro cur hc
+    simp only [crcWrite, fqcrc16_step_eq_bitwise cur hc b, crcMsb, List.foldl_cons]
+    exact ih _ (W16.crcMsbStep_lt cur hc b)
+
+/-- holds for every length and position, from any 16 bit start value (0 for flac, 0xffff for mp3): the
+    polynomial is odd, so the bit step is injective -/
+theorem fqcrc16_detects_byte (init : Nat) (hinit : init < 2 ^ 16) (a a' : Bytes) (i : Nat) (hlen : a.length = a'.length)
+    (hi : i < a.length) (hne : a[i] ≠ a'[i]'(hlen ▸ hi))
+    (hrest : ∀ j (hj : j < a.length), j ≠ i → a[j] = a'[j]'(hlen ▸ hj)) :
+    crcWrite 16 Gen.Crc.ANSI16Table init a ≠ crcWrite 16 Gen.Crc.ANSI16Table init a' := by
+  obtain ⟨p, q, h1, h2⟩ := split_at_diff a a' i hlen hi hrest
+  rw [fqcrc16_eq_bitwise a init hinit, fqcrc16_eq_bitwise a' init hinit]
+  intro h
+  injection h with h
+  rw [h1, h2] at h
+  exact W16.crcMsb_ne_of_byte init hinit p q hne h
+
+/-- the 8 bit table (`ATM8Table`, polynomial 0x07: flac frame header): the table is indexed by state xor byte -/
+theorem fqcrc8_step_eq_bitwise (cur : Nat) (hc : cur < 2 ^ 8) (b : UInt8) :
+    crcWriteByte 8 Gen.Crc.ATM8Table cur b = .ok (crcMsbStep 0x07 8 cur b) := by
+  have hb : b.toNat < 2 ^ 8 := b.toNat_lt
+  have hidx : cur ^^^ b.toNat < 256 := Nat.xor_lt_two_pow (n := 8) hc hb
+  obtain ⟨hsz, htab⟩ := crc8_table_ok
+  have hlt : cur ^^^ b.toNat < Gen.Crc.ATM8Table.size := by rw [hsz]; exact hidx
+  have hget : Gen.Crc.ATM8Table[cur ^^^ b.toNat]? = some (makeTableEntry 0x07 8 (cur ^^^ b.toNat)) := by
+    rw [Array.getElem?_eq_getElem hlt, ← htab _ hidx, getElem!_pos Gen.Crc.ATM8Table _ hlt]
+  simp only [crcWriteByte, hget]
+  rw [W8.makeTableEntry_eq]
+  rfl
+
+theorem fqcrc8_eq_bitwise (bs : Bytes) : ∀ (cur : Nat), cur < 2 ^ 8 →
+    crcWrite 8 Gen.Crc.ATM8Table cur bs = .ok (crcMsb 0x07 8 cur bs) := by
+  induction bs with
+  | nil => intro cur _; rfl
+  | cons b bs ih =>
+    intro cur hc
+    simp only [crcWrite, fqcrc8_step_eq_bitwise cur hc b, crcMsb, List.foldl_cons]
+    exact ih _ (W8.crcMsbStep_lt cur hc b)
+
+/-- every length and position, from any 8 bit start value -/
+theorem fqcrc8_detects_byte (init : Nat) (hinit : init < 2 ^ 8) (a a' : Bytes) (i : Nat) (hlen : a.length = a'.length)
+    (hi : i < a.length) (hne : a[i] ≠ a'[i]'(hlen ▸ hi))
+    (hrest : ∀ j (hj : j < a.length), j ≠ i → a[j] = a'[j]'(hlen ▸ hj)) :
+    crcWrite 8 Gen.Crc.ATM8Table init a ≠ crcWrite 8 Gen.Crc.ATM8Table init a' := by
+  obtain ⟨p, q, h1, h2⟩ := split_at_diff a a' i hlen hi hrest
+  rw [fqcrc8_eq_bitwise a init hinit, fqcrc8_eq_bitwise a' init hinit]
+  intro h
+  injection h with h
+  rw [h1, h2] at h
+  exact W8.crcMsb_ne_of_byte init hinit p q hne h
 
 /-! ## every single altered byte changes the CRC-32 / Adler-32 -/
 
